@@ -16,6 +16,7 @@ Decided
   A1  first dimension of every exported object table (see obligations/shape tables) - decided by the shape engine (C13.A1)
   +   no table write is skipped because the OUTPUT directory already holds the file (a re-export would keep a stale table)
   +   U1 also when the saved value is a local with several definitions: each definition must be the model's spike times
+  +   F1: no exported file is created as a link (`shutil.copy(..., follow_symlinks=False)` is an alias effect): the in-place rewrites of the export would reach the source
 Not decided: equality of reloaded values, uint16 range of ids.
 """
 import ast
@@ -91,6 +92,13 @@ def f1_effects(ctx):
         what = {'write': 'writes', 'delete': 'deletes', 'mmap-write': 'modifies in place', 'mkdir': 'creates directory'}[e.kind]
         ctx.violated('C13.F1', e.fi, e.node, 'the export %s %s/%s [%s; call chain %s]: only the output directory, the three spike-subset files and the '
                      'deletion of temp_wh.dat are allowed' % (what, {'SRC': 'SOURCE'}.get(root, root), pat, e.detail, e.chain()))
+    # an exported file must be an independent file: convert() rewrites some of them in place (uint16 compression, column-vector squeeze), and a link would
+    # carry those writes into the source ("leaves every pre-existing source file byte-identical")
+    for e in f.effects:
+        if e.kind == 'alias':
+            bad += 1
+            ctx.violated('C13.F1', e.fi, e.node, 'an exported file can be created as a LINK (%s; call chain %s): the in-place rewrites of the export then modify the source data' % (e.detail, e.chain()))
+            break
     if not bad:
         ctx.holds('C13.F1', conv, '%d effect sites: all under the output directory except %d allowed source effects (subset store, temp_wh.dat) '
                   '(%d call sites interpreted)' % (len(sites), n_src, f.calls_seen), 'convert')
